@@ -240,12 +240,14 @@ shape_harness!(c31_decimal_shape_w1_tz0, 1, 0, "7.7", 8);
 shape_harness!(c31_decimal_shape_w4_tz2, 4, 2, "7.7700", 12);
 
 //# props: C31, C34
+//# tier: thorough
 //# kind: complete for this text shape (3 fraction digits, all zeros)
 //# fns: decimal::Decimal::from_str
 //# assume: std integer parsing is under contract: u128::from_str_radix returns the component the text denotes (stub)
 shape_harness!(c31_decimal_shape_w3_tz3, 3, 3, "7.000", 12);
 
 //# props: C31, C34
+//# tier: thorough
 //# kind: complete for this text shape (38 fraction digits: the largest scale whose power of ten fits u128)
 //# fns: decimal::Decimal::from_str
 //# assume: std integer parsing is under contract: u128::from_str_radix returns the component the text denotes (stub)
@@ -258,6 +260,7 @@ shape_harness!(c31_decimal_shape_w38_tz0, 38, 0, "7.7777777777777777777777777777
 shape_harness!(c31_decimal_shape_w39_tz0, 39, 0, "7.777777777777777777777777777777777777777", 48);
 
 //# props: C31, C34
+//# tier: thorough
 //# kind: complete for this text shape (41 fraction digits, 2 trailing zeros)
 //# fns: decimal::Decimal::from_str
 //# assume: std integer parsing is under contract: u128::from_str_radix returns the component the text denotes (stub)
@@ -267,6 +270,7 @@ const LIT255: &str = "0.00000000000000000000000000000000000000000000000000000000
 const LIT256: &str = "0.0000000000000000000000000000000000000000000000000000000000000000000000000000000000000000000000000000000000000000000000000000000000000000000000000000000000000000000000000000000000000000000000000000000000000000000000000000000000000000000000000000000000000000000001";
 
 //# props: C31, C34
+//# tier: thorough
 //# kind: complete for this text shape (255 fraction digits: the largest count that fits the u8 scale)
 //# fns: decimal::Decimal::from_str
 //# assume: std integer parsing is under contract: u128::from_str_radix returns the component the text denotes (stub)
@@ -309,6 +313,7 @@ pub fn c31_decimal_shape_integer_only() {
 
 /// "1." and ".5": an empty side counts as zero; "." alone is an error
 //# props: C31, C34
+//# tier: thorough
 //# kind: complete for these text shapes (empty integer part, empty fraction, both empty)
 //# fns: decimal::Decimal::from_str
 //# assume: std integer parsing is under contract (stub)
